@@ -17,38 +17,102 @@
 
 #include <common/vjson.hpp>
 
+// Section groups.  C06_GROUP = 0 (default): everything.  C06_GROUP = n > 0: only the drivers and the fcppt includes
+// of group n (checks/c06.py GROUPS) - used when this header does not compile as a whole against the tree under test,
+// so that the groups that still compile are built, run and judged on their own.  C06_GROUP < 0: none (C01's own units).
+#ifndef C06_GROUP
+#define C06_GROUP 0
+#endif
+#define C06_ON(n) (C06_GROUP == 0 || C06_GROUP == (n))
+#define C06_G_TC 1
+#define C06_G_FROM_INT 2
+#define C06_G_LOG2 3
+#define C06_G_IS_POW2 4
+#define C06_G_NEXT_POW2 5
+#define C06_G_DIV 6
+#define C06_G_MOD 7
+#define C06_G_DIFF 8
+#define C06_G_BIT_TEST 9
+#define C06_G_CEIL_DIV 10
+#define C06_G_CEIL_DIV_SIGNED 11
+#define C06_G_CLAMP 12
+#define C06_G_POW2 13
+#define C06_G_INTERVAL 14
+#define C06_G_CONV 15
+#define C06_G_ENUM_CASTS 16
+#define C06_G_MASK_C 17
+#define C06_G_UINT_PTR 18
+
+#if C06_ON(C06_G_BIT_TEST) || C06_ON(C06_G_POW2) || C06_ON(C06_G_MASK_C)
 #include <fcppt/bit/mask.hpp>
 #include <fcppt/bit/mask_impl.hpp>
+#endif
+#if C06_ON(C06_G_POW2)
 #include <fcppt/bit/shift_count.hpp>
 #include <fcppt/bit/shifted_mask.hpp>
+#include <fcppt/math/power_of_2.hpp>
+#endif
+#if C06_ON(C06_G_BIT_TEST)
 #include <fcppt/bit/test.hpp>
-#include <fcppt/literal.hpp>
+#endif
+#if C06_ON(C06_G_MASK_C)
 #include <fcppt/bit/mask_c.hpp>
-#include <fcppt/cast/enum_to_int.hpp>
-#include <fcppt/cast/enum_to_underlying.hpp>
-#include <fcppt/cast/int_to_enum.hpp>
+#endif
+#if C06_ON(C06_G_CONV)
+#include <fcppt/literal.hpp>
 #include <fcppt/cast/promote_int.hpp>
 #include <fcppt/cast/safe_numeric.hpp>
 #include <fcppt/cast/size.hpp>
 #include <fcppt/cast/to_signed.hpp>
-#include <fcppt/cast/to_uint_ptr.hpp>
 #include <fcppt/cast/to_unsigned.hpp>
+#endif
+#if C06_ON(C06_G_ENUM_CASTS)
+#include <fcppt/cast/enum_to_int.hpp>
+#include <fcppt/cast/enum_to_underlying.hpp>
+#include <fcppt/cast/int_to_enum.hpp>
+#endif
+#if C06_ON(C06_G_UINT_PTR)
+#include <fcppt/cast/to_uint_ptr.hpp>
+#endif
+#if C06_ON(C06_G_TC)
 #include <fcppt/cast/truncation_check.hpp>
+#endif
+#if C06_ON(C06_G_FROM_INT)
 #include <fcppt/enum/from_int.hpp>
+#endif
+#if C06_ON(C06_G_CEIL_DIV)
 #include <fcppt/math/ceil_div.hpp>
+#endif
+#if C06_ON(C06_G_CEIL_DIV_SIGNED)
 #include <fcppt/math/ceil_div_signed.hpp>
+#endif
+#if C06_ON(C06_G_CLAMP)
 #include <fcppt/math/clamp.hpp>
+#endif
+#if C06_ON(C06_G_DIFF)
 #include <fcppt/math/diff.hpp>
+#endif
+#if C06_ON(C06_G_DIV)
 #include <fcppt/math/div.hpp>
+#endif
+#if C06_ON(C06_G_INTERVAL)
 #include <fcppt/math/interval_distance.hpp>
-#include <fcppt/math/is_power_of_2.hpp>
-#include <fcppt/math/log2.hpp>
-#include <fcppt/math/mod.hpp>
-#include <fcppt/math/next_power_of_2.hpp>
-#include <fcppt/math/power_of_2.hpp>
-#include <fcppt/optional/object_impl.hpp>
 #include <fcppt/tuple/make.hpp>
 #include <fcppt/tuple/object_impl.hpp>
+#endif
+#if C06_ON(C06_G_IS_POW2)
+#include <fcppt/math/is_power_of_2.hpp>
+#endif
+#if C06_ON(C06_G_LOG2)
+#include <fcppt/math/log2.hpp>
+#endif
+#if C06_ON(C06_G_MOD)
+#include <fcppt/math/mod.hpp>
+#endif
+#if C06_ON(C06_G_NEXT_POW2)
+#include <fcppt/math/next_power_of_2.hpp>
+#endif
+#include <fcppt/optional/object_impl.hpp>
 
 #include <cstdint>
 #include <cxxabi.h>
@@ -388,6 +452,14 @@ C06_ENUMS(std::int8_t, ei8)
 C06_ENUMS(std::uint16_t, eu16)
 C06_ENUMS(std::uint32_t, eu32)
 #undef C06_ENUMS
+// round 3: sizes at the limit of the underlying type (a size of 2^N does not fit fcppt::enum_::size_type) and around
+// the sign bit of the underlying type
+enum class eu8_255 : std::uint8_t { e0, fcppt_maximum = 254 };
+enum class eu8_128 : std::uint8_t { e0, fcppt_maximum = 127 };
+enum class eu8_129 : std::uint8_t { e0, fcppt_maximum = 128 };
+enum class ei8_128 : std::int8_t { e0, fcppt_maximum = 127 };
+enum class ei16_32768 : std::int16_t { e0, fcppt_maximum = 32767 };
+enum class eu16_65535 : std::uint16_t { e0, fcppt_maximum = 65534 };
 
 // ================================================================= drivers
 // tier: 0 = quick, 1 = thorough
@@ -414,6 +486,7 @@ void unary_rows(char const *f, char const *S, char const *D, long long n, long l
 }
 
 // ---- truncation_check
+#if C06_ON(C06_G_TC)
 template <typename D, typename S> void tc_pair(config const &cfg, vj::Rng &rng)
 {
   if constexpr (narrow<S>)
@@ -435,8 +508,10 @@ template <typename S> void tc_source(config const &cfg, vj::Rng &rng)
   tc_pair<i8, S>(cfg, rng); tc_pair<u8, S>(cfg, rng); tc_pair<i16, S>(cfg, rng); tc_pair<u16, S>(cfg, rng);
   tc_pair<i32, S>(cfg, rng); tc_pair<u32, S>(cfg, rng); tc_pair<i64, S>(cfg, rng); tc_pair<u64, S>(cfg, rng);
 }
+#endif
 
 // ---- enum_::from_int
+#if C06_ON(C06_G_FROM_INT)
 template <typename E, typename V> void from_int_one(config const &cfg, vj::Rng &rng)
 {
   using U = std::underlying_type_t<E>;
@@ -457,24 +532,49 @@ template <typename E> void from_int_enum(config const &cfg, vj::Rng &rng)
 {
   from_int_one<E, u8>(cfg, rng); from_int_one<E, u16>(cfg, rng); from_int_one<E, u32>(cfg, rng); from_int_one<E, u64>(cfg, rng);
 }
+#endif
 
 // ---- unary helpers: log2, is_power_of_2, next_power_of_2
 template <typename T> void unary_helpers(config const &cfg, vj::Rng &rng, std::string const &only)
 {
   if constexpr (narrow<T>)
   {
+#if C06_ON(C06_G_LOG2)
     if (only == "log2") unary_rows<T>("log2", tname<T>(), tname<T>(), 0, 1, hi<T>(), [](T const v) { return fcppt::math::log2(v); });
+#endif
+#if C06_ON(C06_G_IS_POW2)
     if (only == "is_power_of_2") unary_rows<T>("is_power_of_2", tname<T>(), tname<T>(), 0, 0, hi<T>(), [](T const v) { return fcppt::math::is_power_of_2(v); });
+#endif
+#if C06_ON(C06_G_NEXT_POW2)
     if (only == "next_power_of_2") unary_rows<T>("next_power_of_2", tname<T>(), tname<T>(), 0, 0, hi<T>(), [](T const v) { return fcppt::math::next_power_of_2(v); });
+#endif
+    (void)only;
   }
   else
   {
-    for (T const v : operands<T>(rng, true, cfg.tier == 0 ? 200U : 5000U))
+    // round 3: besides the lattice and random values every value with exactly two bits set (2^a + 2^b) and every run of
+    // ones (2^a - 2^b): the values whose lower half is zero without being a power of two, which an intermediate result
+    // computed in a narrower unsigned type gets wrong
+    std::vector<T> vs = operands<T>(rng, true, cfg.tier == 0 ? 200U : 5000U);
+    for (unsigned hi_bit = 1; hi_bit < sizeof(T) * 8; ++hi_bit)
+      for (unsigned lo_bit = 0; lo_bit < hi_bit; ++lo_bit)
+      {
+        vs.push_back(static_cast<T>((static_cast<T>(1) << hi_bit) + (static_cast<T>(1) << lo_bit)));
+        vs.push_back(static_cast<T>((static_cast<T>(1) << hi_bit) - (static_cast<T>(1) << lo_bit)));
+      }
+    for (T const v : vs)
     {
       Z const z{false, 0};
+      (void)z; (void)v;
+#if C06_ON(C06_G_LOG2)
       if (only == "log2" && v != 0) wide::rec("log2", tname<T>(), tname<T>(), 0, 0, to_z(v), z, z, [v] { return fcppt::math::log2(v); });
+#endif
+#if C06_ON(C06_G_IS_POW2)
       if (only == "is_power_of_2") wide::rec("is_power_of_2", tname<T>(), tname<T>(), 0, 0, to_z(v), z, z, [v] { return fcppt::math::is_power_of_2(v); });
+#endif
+#if C06_ON(C06_G_NEXT_POW2)
       if (only == "next_power_of_2") wide::rec("next_power_of_2", tname<T>(), tname<T>(), 0, 0, to_z(v), z, z, [v] { return fcppt::math::next_power_of_2(v); });
+#endif
     }
   }
 }
@@ -496,12 +596,24 @@ template <bin F> constexpr char const *bname()
 }
 template <bin F, typename T> auto bcall(T const a, T const b)
 {
+#if C06_ON(C06_G_DIV)
   if constexpr (F == bin::div) return fcppt::math::div(a, b);
-  else if constexpr (F == bin::mod) return fcppt::math::mod(a, b);
-  else if constexpr (F == bin::diff) return fcppt::math::diff(a, b);
-  else if constexpr (F == bin::bit_test) return fcppt::bit::test(a, fcppt::bit::mask<T>(b));
-  else if constexpr (F == bin::ceil_div) return fcppt::math::ceil_div(a, b);
-  else return fcppt::math::ceil_div_signed(a, b);
+#endif
+#if C06_ON(C06_G_MOD)
+  if constexpr (F == bin::mod) return fcppt::math::mod(a, b);
+#endif
+#if C06_ON(C06_G_DIFF)
+  if constexpr (F == bin::diff) return fcppt::math::diff(a, b);
+#endif
+#if C06_ON(C06_G_BIT_TEST)
+  if constexpr (F == bin::bit_test) return fcppt::bit::test(a, fcppt::bit::mask<T>(b));
+#endif
+#if C06_ON(C06_G_CEIL_DIV)
+  if constexpr (F == bin::ceil_div) return fcppt::math::ceil_div(a, b);
+#endif
+#if C06_ON(C06_G_CEIL_DIV_SIGNED)
+  if constexpr (F == bin::ceil_div_signed) return fcppt::math::ceil_div_signed(a, b);
+#endif
 }
 template <bin F, typename T> bool bskip(T const a, T const b)
 {
@@ -623,11 +735,17 @@ template <bin F, typename T> void binary(config const &cfg, vj::Rng &rng)
 // ---- the 32-bit grids of ceil_div / ceil_div_signed (plain integers)
 inline void ceil_grids(std::string const &only)
 {
+#if C06_ON(C06_G_CEIL_DIV)
   if (only == "ceil_div") binary_rows<bin::ceil_div, u32>(0, 2047, 0, 2047);
+#endif
+#if C06_ON(C06_G_CEIL_DIV_SIGNED)
   if (only == "ceil_div_signed") binary_rows<bin::ceil_div_signed, i32>(-1024, 1023, -1024, 1023);
+#endif
+  (void)only;
 }
 
 // ---- clamp
+#if C06_ON(C06_G_CLAMP)
 template <typename T> void clamp_all(config const &cfg, vj::Rng &rng)
 {
   auto const f = [](T const v, T const l, T const h) { return fcppt::math::clamp(v, l, h); };
@@ -680,7 +798,10 @@ template <typename T> void clamp_all(config const &cfg, vj::Rng &rng)
   }
 }
 
+#endif
+
 // ---- power_of_2 / shifted_mask
+#if C06_ON(C06_G_POW2)
 template <typename R> void pow2_all()
 {
   unsigned const pb = promoted_bits<R>();
@@ -712,7 +833,10 @@ template <typename R> void pow2_all()
   }
 }
 
+#endif
+
 // ---- interval_distance on int with small endpoints
+#if C06_ON(C06_G_INTERVAL)
 inline void interval_all()
 {
   for (int a1 = -5; a1 <= 5; ++a1)
@@ -729,6 +853,9 @@ inline void interval_all()
       }
 }
 
+#endif
+
+#if C06_ON(C06_G_CONV)
 // ---- value preserving conversions: cast::size, to_signed, to_unsigned, promote_int, safe_numeric, fcppt::literal
 // (extension round).  Rows for 8/16-bit sources (every value), wide records for 32/64-bit sources (lattice + random).
 template <typename S, typename Fn> void conv_one(char const *f, char const *D, config const &cfg, vj::Rng &rng, Fn const &fn)
@@ -760,6 +887,9 @@ template <typename S> void conv_source(config const &cfg, vj::Rng &rng)
   conv_one<S>("promote_int", tname<fcppt::cast::promote_int_type<S>>(), cfg, rng, [](S const v) { return fcppt::cast::promote_int(v); });
 }
 
+#endif
+
+#if C06_ON(C06_G_ENUM_CASTS)
 // ---- enum casts: enums with a fixed underlying type can hold every value of that type
 enum class ce_i8 : std::int8_t { zero, fcppt_maximum = zero };
 enum class ce_u8 : std::uint8_t { zero, fcppt_maximum = zero };
@@ -786,20 +916,40 @@ template <typename E> void enum_casts()
   int_to_enum_pair<E, i8>(); int_to_enum_pair<E, u8>(); int_to_enum_pair<E, i16>(); int_to_enum_pair<E, u16>();
 }
 
+#endif
+
 // ---- bit::mask_c (a constant mask holds its constant) and cast::to_uint_ptr (equal exactly for the same object)
+#if C06_ON(C06_G_MASK_C)
 template <typename T, T M> void mask_c_one()
 {
-  std::vector<long long> const xs{static_cast<long long>(M)};
-  row r;
-  r.begin("mask_c", tname<T>(), tname<T>(), 0, 0, 0, 0, 0, &xs);
-  r.call(static_cast<long long>(M), [] { return fcppt::bit::mask_c<T, M>().get(); });
-  r.end();
+  if constexpr (narrow<T>)
+  {
+    std::vector<long long> const xs{static_cast<long long>(M)};
+    row r;
+    r.begin("mask_c", tname<T>(), tname<T>(), 0, 0, 0, 0, 0, &xs);
+    r.call(static_cast<long long>(M), [] { return fcppt::bit::mask_c<T, M>().get(); });
+    r.end();
+  }
+  else
+    wide::rec("mask_c", tname<T>(), tname<T>(), 0, 0, to_z(M), Z{false, 0}, Z{false, 0}, [] { return fcppt::bit::mask_c<T, M>().get(); });
 }
-inline void misc_all()
+inline void mask_c_all()
 {
   mask_c_one<u8, 0>(); mask_c_one<u8, 1>(); mask_c_one<u8, 0x81>(); mask_c_one<u8, 255>();
   mask_c_one<i8, -128>(); mask_c_one<i8, -1>(); mask_c_one<i8, 127>();
   mask_c_one<u16, 0x8001>(); mask_c_one<u16, 65535>(); mask_c_one<i16, -32768>(); mask_c_one<i16, 32767>();
+  // round 3: constants that need the upper half of a 32/64-bit type
+  mask_c_one<u32, 0x80000000U>(); mask_c_one<u32, 0xFFFFFFFFU>(); mask_c_one<u32, 0x10000U>(); mask_c_one<u32, 0>();
+  mask_c_one<i32, std::numeric_limits<i32>::min()>(); mask_c_one<i32, -1>(); mask_c_one<i32, std::numeric_limits<i32>::max()>();
+  mask_c_one<u64, 0x8000000000000000ULL>(); mask_c_one<u64, 0xFFFFFFFFFFFFFFFFULL>(); mask_c_one<u64, 0x100000000ULL>();
+  mask_c_one<u64, 0x80000000ULL>(); mask_c_one<u64, 0xFFFFFFFF00000001ULL>();
+  mask_c_one<i64, std::numeric_limits<i64>::min()>(); mask_c_one<i64, -1>(); mask_c_one<i64, std::numeric_limits<i64>::max()>();
+  mask_c_one<i64, -0x100000000LL>(); mask_c_one<i64, 0x100000000LL>();
+}
+#endif
+#if C06_ON(C06_G_UINT_PTR)
+inline void misc_all()
+{
   static int cells[6] = {0, 0, 0, 0, 0, 0};
   for (int i = 0; i < 6; ++i)
   {
@@ -810,66 +960,118 @@ inline void misc_all()
     r.end();
   }
 }
+#endif
 
 // ---------------------------------------------------------------- sections
+// one entry per section; only the groups that are compiled in are listed / can be run
+struct section_entry
+{
+  char const *name;
+  void (*run)(std::string const &, config const &, vj::Rng &);
+};
+#define C06_SEC(name, ...) section_entry{name, [](std::string const &s, config const &cfg, vj::Rng &rng) { (void)s; (void)cfg; (void)rng; __VA_ARGS__ }},
+inline std::vector<section_entry> const &section_table()
+{
+  static std::vector<section_entry> const t{
+#if C06_ON(C06_G_TC)
+      C06_SEC("tc_i8", tc_source<i8>(cfg, rng);) C06_SEC("tc_u8", tc_source<u8>(cfg, rng);)
+      C06_SEC("tc_i16", tc_source<i16>(cfg, rng);) C06_SEC("tc_u16", tc_source<u16>(cfg, rng);)
+      C06_SEC("tc_i32", tc_source<i32>(cfg, rng);) C06_SEC("tc_u32", tc_source<u32>(cfg, rng);)
+      C06_SEC("tc_i64", tc_source<i64>(cfg, rng);) C06_SEC("tc_u64", tc_source<u64>(cfg, rng);)
+#endif
+#if C06_ON(C06_G_FROM_INT)
+      C06_SEC("from_int_u8", from_int_enum<eu8_1>(cfg, rng); from_int_enum<eu8_3>(cfg, rng); from_int_enum<eu8_9>(cfg, rng);)
+      C06_SEC("from_int_i8", from_int_enum<ei8_1>(cfg, rng); from_int_enum<ei8_3>(cfg, rng); from_int_enum<ei8_9>(cfg, rng);)
+      C06_SEC("from_int_u16", from_int_enum<eu16_1>(cfg, rng); from_int_enum<eu16_3>(cfg, rng); from_int_enum<eu16_9>(cfg, rng);)
+      C06_SEC("from_int_u32", from_int_enum<eu32_1>(cfg, rng); from_int_enum<eu32_3>(cfg, rng); from_int_enum<eu32_9>(cfg, rng);)
+      // round 3: enum sizes at the limit of the underlying type / of the size type
+      C06_SEC("from_int_limits", from_int_enum<eu8_255>(cfg, rng); from_int_enum<ei8_128>(cfg, rng); from_int_enum<ei16_32768>(cfg, rng);
+              from_int_enum<eu16_65535>(cfg, rng); from_int_enum<eu8_128>(cfg, rng); from_int_enum<eu8_129>(cfg, rng);)
+#endif
+#if C06_ON(C06_G_LOG2)
+      C06_SEC("log2_narrow", unary_helpers<u8>(cfg, rng, "log2"); unary_helpers<u16>(cfg, rng, "log2");)
+      C06_SEC("log2_u32", unary_helpers<u32>(cfg, rng, "log2");) C06_SEC("log2_u64", unary_helpers<u64>(cfg, rng, "log2");)
+#endif
+#if C06_ON(C06_G_IS_POW2)
+      C06_SEC("is_power_of_2", unary_helpers<u8>(cfg, rng, s); unary_helpers<u16>(cfg, rng, s); unary_helpers<u32>(cfg, rng, s); unary_helpers<u64>(cfg, rng, s);)
+#endif
+#if C06_ON(C06_G_NEXT_POW2)
+      C06_SEC("next_power_of_2", unary_helpers<u8>(cfg, rng, s); unary_helpers<u16>(cfg, rng, s); unary_helpers<u32>(cfg, rng, s); unary_helpers<u64>(cfg, rng, s);)
+#endif
+#if C06_ON(C06_G_DIV)
+      C06_SEC("div_8", binary<bin::div, i8>(cfg, rng); binary<bin::div, u8>(cfg, rng);)
+      C06_SEC("div_16", binary<bin::div, i16>(cfg, rng); binary<bin::div, u16>(cfg, rng);)
+      C06_SEC("div_32", binary<bin::div, i32>(cfg, rng); binary<bin::div, u32>(cfg, rng);)
+      C06_SEC("div_64", binary<bin::div, i64>(cfg, rng); binary<bin::div, u64>(cfg, rng);)
+#endif
+#if C06_ON(C06_G_MOD)
+      C06_SEC("mod", binary<bin::mod, u8>(cfg, rng); binary<bin::mod, u16>(cfg, rng); binary<bin::mod, u32>(cfg, rng); binary<bin::mod, u64>(cfg, rng);)
+#endif
+#if C06_ON(C06_G_DIFF)
+      C06_SEC("diff_8", binary<bin::diff, i8>(cfg, rng); binary<bin::diff, u8>(cfg, rng);)
+      C06_SEC("diff_16", binary<bin::diff, i16>(cfg, rng); binary<bin::diff, u16>(cfg, rng);)
+      C06_SEC("diff_wide", binary<bin::diff, i32>(cfg, rng); binary<bin::diff, u32>(cfg, rng); binary<bin::diff, i64>(cfg, rng); binary<bin::diff, u64>(cfg, rng);)
+#endif
+#if C06_ON(C06_G_BIT_TEST)
+      C06_SEC("bit_test", binary<bin::bit_test, u8>(cfg, rng); binary<bin::bit_test, u16>(cfg, rng); binary<bin::bit_test, u32>(cfg, rng); binary<bin::bit_test, u64>(cfg, rng);)
+      C06_SEC("bit_test_signed", binary<bin::bit_test, i8>(cfg, rng); binary<bin::bit_test, i16>(cfg, rng);)
+#endif
+#if C06_ON(C06_G_CEIL_DIV)
+      C06_SEC("ceil_div", binary<bin::ceil_div, u32>(cfg, rng); binary<bin::ceil_div, u64>(cfg, rng);)
+      C06_SEC("ceil_div_grid", ceil_grids("ceil_div");)
+#endif
+#if C06_ON(C06_G_CEIL_DIV_SIGNED)
+      C06_SEC("ceil_div_signed", binary<bin::ceil_div_signed, i32>(cfg, rng); binary<bin::ceil_div_signed, i64>(cfg, rng);)
+      C06_SEC("ceil_div_signed_grid", ceil_grids("ceil_div_signed");)
+#endif
+#if C06_ON(C06_G_CLAMP)
+      C06_SEC("clamp_8", clamp_all<i8>(cfg, rng); clamp_all<u8>(cfg, rng);)
+      C06_SEC("clamp_16", clamp_all<i16>(cfg, rng); clamp_all<u16>(cfg, rng);)
+      C06_SEC("clamp_wide", clamp_all<i32>(cfg, rng); clamp_all<u32>(cfg, rng); clamp_all<i64>(cfg, rng); clamp_all<u64>(cfg, rng);)
+#endif
+#if C06_ON(C06_G_POW2)
+      C06_SEC("power_of_2", pow2_all<i8>(); pow2_all<u8>(); pow2_all<i16>(); pow2_all<u16>(); pow2_all<i32>(); pow2_all<u32>(); pow2_all<i64>(); pow2_all<u64>();)
+#endif
+#if C06_ON(C06_G_INTERVAL)
+      C06_SEC("interval_distance", interval_all();)
+#endif
+#if C06_ON(C06_G_CONV)
+      C06_SEC("conv_8", conv_source<i8>(cfg, rng); conv_source<u8>(cfg, rng);)
+      C06_SEC("conv_16", conv_source<i16>(cfg, rng); conv_source<u16>(cfg, rng);)
+      C06_SEC("conv_32", conv_source<i32>(cfg, rng); conv_source<u32>(cfg, rng);)
+      C06_SEC("conv_64", conv_source<i64>(cfg, rng); conv_source<u64>(cfg, rng);)
+#endif
+#if C06_ON(C06_G_ENUM_CASTS)
+      C06_SEC("enum_casts", enum_casts<ce_i8>(); enum_casts<ce_u8>(); enum_casts<ce_i16>(); enum_casts<ce_u16>();)
+#endif
+#if C06_ON(C06_G_MASK_C)
+      C06_SEC("mask_c", mask_c_all();)
+#endif
+#if C06_ON(C06_G_UINT_PTR)
+      C06_SEC("misc", misc_all();)
+#endif
+  };
+  return t;
+}
+#undef C06_SEC
+
 inline std::vector<std::string> sections()
 {
-  return {"tc_i8", "tc_u8", "tc_i16", "tc_u16", "tc_i32", "tc_u32", "tc_i64", "tc_u64",
-          "from_int_u8", "from_int_i8", "from_int_u16", "from_int_u32",
-          "log2_narrow", "log2_u32", "log2_u64", "is_power_of_2", "next_power_of_2",
-          "div_8", "div_16", "div_32", "div_64", "mod", "diff_8", "diff_16", "diff_wide", "bit_test",
-          "ceil_div", "ceil_div_grid", "ceil_div_signed", "ceil_div_signed_grid", "clamp_8", "clamp_16", "clamp_wide",
-          "power_of_2", "interval_distance",
-          "conv_8", "conv_16", "conv_32", "conv_64", "enum_casts", "bit_test_signed", "misc"};
+  std::vector<std::string> r;
+  for (section_entry const &e : section_table()) r.emplace_back(e.name);
+  return r;
 }
 
 inline bool run_section(std::string const &s, config const &cfg)
 {
   vj::Rng rng(cfg.seed * 1000003ULL + std::hash<std::string>{}(s) % 1000003ULL);
-  if (s == "tc_i8") tc_source<i8>(cfg, rng);
-  else if (s == "tc_u8") tc_source<u8>(cfg, rng);
-  else if (s == "tc_i16") tc_source<i16>(cfg, rng);
-  else if (s == "tc_u16") tc_source<u16>(cfg, rng);
-  else if (s == "tc_i32") tc_source<i32>(cfg, rng);
-  else if (s == "tc_u32") tc_source<u32>(cfg, rng);
-  else if (s == "tc_i64") tc_source<i64>(cfg, rng);
-  else if (s == "tc_u64") tc_source<u64>(cfg, rng);
-  else if (s == "from_int_u8") { from_int_enum<eu8_1>(cfg, rng); from_int_enum<eu8_3>(cfg, rng); from_int_enum<eu8_9>(cfg, rng); }
-  else if (s == "from_int_i8") { from_int_enum<ei8_1>(cfg, rng); from_int_enum<ei8_3>(cfg, rng); from_int_enum<ei8_9>(cfg, rng); }
-  else if (s == "from_int_u16") { from_int_enum<eu16_1>(cfg, rng); from_int_enum<eu16_3>(cfg, rng); from_int_enum<eu16_9>(cfg, rng); }
-  else if (s == "from_int_u32") { from_int_enum<eu32_1>(cfg, rng); from_int_enum<eu32_3>(cfg, rng); from_int_enum<eu32_9>(cfg, rng); }
-  else if (s == "log2_narrow") { unary_helpers<u8>(cfg, rng, "log2"); unary_helpers<u16>(cfg, rng, "log2"); }
-  else if (s == "log2_u32") unary_helpers<u32>(cfg, rng, "log2");
-  else if (s == "log2_u64") unary_helpers<u64>(cfg, rng, "log2");
-  else if (s == "is_power_of_2" || s == "next_power_of_2")
-  { unary_helpers<u8>(cfg, rng, s); unary_helpers<u16>(cfg, rng, s); unary_helpers<u32>(cfg, rng, s); unary_helpers<u64>(cfg, rng, s); }
-  else if (s == "div_8") { binary<bin::div, i8>(cfg, rng); binary<bin::div, u8>(cfg, rng); }
-  else if (s == "div_16") { binary<bin::div, i16>(cfg, rng); binary<bin::div, u16>(cfg, rng); }
-  else if (s == "div_32") { binary<bin::div, i32>(cfg, rng); binary<bin::div, u32>(cfg, rng); }
-  else if (s == "div_64") { binary<bin::div, i64>(cfg, rng); binary<bin::div, u64>(cfg, rng); }
-  else if (s == "mod") { binary<bin::mod, u8>(cfg, rng); binary<bin::mod, u16>(cfg, rng); binary<bin::mod, u32>(cfg, rng); binary<bin::mod, u64>(cfg, rng); }
-  else if (s == "diff_8") { binary<bin::diff, i8>(cfg, rng); binary<bin::diff, u8>(cfg, rng); }
-  else if (s == "diff_16") { binary<bin::diff, i16>(cfg, rng); binary<bin::diff, u16>(cfg, rng); }
-  else if (s == "diff_wide") { binary<bin::diff, i32>(cfg, rng); binary<bin::diff, u32>(cfg, rng); binary<bin::diff, i64>(cfg, rng); binary<bin::diff, u64>(cfg, rng); }
-  else if (s == "bit_test") { binary<bin::bit_test, u8>(cfg, rng); binary<bin::bit_test, u16>(cfg, rng); binary<bin::bit_test, u32>(cfg, rng); binary<bin::bit_test, u64>(cfg, rng); }
-  else if (s == "ceil_div") { binary<bin::ceil_div, u32>(cfg, rng); binary<bin::ceil_div, u64>(cfg, rng); }
-  else if (s == "ceil_div_grid") ceil_grids("ceil_div");
-  else if (s == "ceil_div_signed") { binary<bin::ceil_div_signed, i32>(cfg, rng); binary<bin::ceil_div_signed, i64>(cfg, rng); }
-  else if (s == "ceil_div_signed_grid") ceil_grids("ceil_div_signed");
-  else if (s == "clamp_8") { clamp_all<i8>(cfg, rng); clamp_all<u8>(cfg, rng); }
-  else if (s == "clamp_16") { clamp_all<i16>(cfg, rng); clamp_all<u16>(cfg, rng); }
-  else if (s == "clamp_wide") { clamp_all<i32>(cfg, rng); clamp_all<u32>(cfg, rng); clamp_all<i64>(cfg, rng); clamp_all<u64>(cfg, rng); }
-  else if (s == "power_of_2") { pow2_all<i8>(); pow2_all<u8>(); pow2_all<i16>(); pow2_all<u16>(); pow2_all<i32>(); pow2_all<u32>(); pow2_all<i64>(); pow2_all<u64>(); }
-  else if (s == "interval_distance") interval_all();
-  else if (s == "conv_8") { conv_source<i8>(cfg, rng); conv_source<u8>(cfg, rng); }
-  else if (s == "conv_16") { conv_source<i16>(cfg, rng); conv_source<u16>(cfg, rng); }
-  else if (s == "conv_32") { conv_source<i32>(cfg, rng); conv_source<u32>(cfg, rng); }
-  else if (s == "conv_64") { conv_source<i64>(cfg, rng); conv_source<u64>(cfg, rng); }
-  else if (s == "enum_casts") { enum_casts<ce_i8>(); enum_casts<ce_u8>(); enum_casts<ce_i16>(); enum_casts<ce_u16>(); }
-  else if (s == "bit_test_signed") { binary<bin::bit_test, i8>(cfg, rng); binary<bin::bit_test, i16>(cfg, rng); }
-  else if (s == "misc") misc_all();
-  else return false;
-  return true;
+  for (section_entry const &e : section_table())
+    if (s == e.name)
+    {
+      e.run(s, cfg, rng);
+      return true;
+    }
+  return false;
 }
 }
 
